@@ -1,11 +1,12 @@
 ENTRY = dict(
-    runner="C11", pkg="./cmd/c11", corr=["Corr.C11Corr"], n=dict(quick=1118, thorough=1118), runner_timeout=900,
+    runner="C11", pkg="./cmd/c11", corr=["Corr.C11Corr"], n=dict(quick=1384, thorough=1384), runner_timeout=900,
     rule="every predefined parrot (38) over loopback TCP against the STOCK server of the utls package (tls.Server): TLS 1.3; "
          "TLS 1.3 with a HelloRetryRequest (server CurvePreferences = P-256 resp. P-384 only); TLS 1.2 (server MaxVersion); server "
          "ALPN preferences {h2+http/1.1, http/1.1, none}; resumption at 1.3 and 1.2 (shared LRU ClientSessionCache, tickets on, "
          "second connection judged) with the server's ALPN preferences on the resumed connection the same / another protocol / none / "
          "one where the first had none; server-name variants: RemoveSNIExtension (1.3 and 1.2), IPv4 and bracketed IPv6 literals, mixed "
-         "and upper case, trailing dot, punycode labels, a 253-character name, the "
+         "and upper case, trailing dot, punycode labels, a 253-character name, call sequences between UClient and Handshake (Handshake alone; "
+         "build,remove; build,remove,build; remove,build,build; build,SetSNI; SetSNI,build,remove), the "
          "parrot's spec with the SNI extension deleted (HelloCustom + ApplyPreset); against the SCRIPTED server (verif_server.go) the flight "
          "shapes the stock one never sends: CompressedCertificate(brotli) with and without HelloRetryRequest, application_settings "
          "(17513 / 17613) answered by a client EncryptedExtensions message. Rows whose handshake does not succeed are "
